@@ -339,6 +339,10 @@ class SolveProperty(Property):
         rng = random.Random(ctx["seed"])
         c05 = props_cli.C05()
         findings, cov = c05.dispatch_trace(ctx, rng, tasks=self.cli_tasks, force_cert=self.cli_cert)
+        # both binaries on files of both formats (readers, writers, label mapping): printed answers judged
+        f1, c1 = c05.judged_invocations(ctx, rng, tasks=self.cli_tasks, errors=False, nfiles=16 if ctx["tier"] == "quick" else 120)
+        findings += f1
+        cov.update({k: v for k, v in c1.items() if k.startswith("cli_")})
         f2, c2 = c05.search_after_dispatch_break(ctx, rng, findings)
         findings += f2
         cov.update(c2)
